@@ -674,7 +674,16 @@ func runC19(c *Ctx) {
 			fn := bb("WriteTo")
 			good := false
 			why := "WriteTo does not write data[si+written:ri]"
-			eachInstr(fn, func(in ssa.Instruction) {
+			// the write loop is in WriteTo itself or in a helper WriteTo calls once and whose first result (the running
+			// total on every return) it consumes
+			loopFn := fn
+			var loopCall *ssa.Call
+			for _, hc := range allCalls(fn) {
+				if h := hc.Call.StaticCallee(); isHelperOf(fn, h) && len(invokesOf(h, "Write")) > 0 && len(invokesOf(fn, "Write")) == 0 {
+					loopFn, loopCall = h, hc
+				}
+			}
+			eachInstr(loopFn, func(in ssa.Instruction) {
 				call, ok := in.(ssa.CallInstruction)
 				if !ok || !call.Common().IsInvoke() || call.Common().Method.Name() != "Write" {
 					return
@@ -728,8 +737,23 @@ func runC19(c *Ctx) {
 				}
 				consumed := false
 				for _, cc := range callsToFn(fn, consume) {
-					if stripConv(cc.Common().Args[1]) == ssa.Value(ph) {
+					arg := stripConv(cc.Common().Args[1])
+					if loopCall == nil && arg == ssa.Value(ph) {
 						consumed = true
+					}
+					if loopCall != nil && loopFn.Signature.Results().Len() >= 1 {
+						total := ssa.Value(loopCall)
+						if loopFn.Signature.Results().Len() > 1 {
+							total = extractOfInstr(loopCall, 0)
+						}
+						if total != nil && arg == stripConv(total) {
+							consumed = true
+							eachInstr(loopFn, func(in2 ssa.Instruction) {
+								if ret, isRet := in2.(*ssa.Return); isRet && stripConv(ret.Results[0]) != ssa.Value(ph) {
+									consumed = false
+								}
+							})
+						}
 					}
 				}
 				if accum && consumed {
@@ -887,4 +911,15 @@ func sliceView(v ssa.Value, dataF *types.Var) ([]ssa.Value, ssa.Value, bool) {
 		lows = append(append([]ssa.Value{}, lows...), sl.Low)
 	}
 	return lows, high, true
+}
+
+// invokesOf: the interface method calls named name in fn.
+func invokesOf(fn *ssa.Function, name string) []ssa.CallInstruction {
+	var out []ssa.CallInstruction
+	eachInstr(fn, func(in ssa.Instruction) {
+		if call, ok := in.(ssa.CallInstruction); ok && call.Common().IsInvoke() && call.Common().Method.Name() == name {
+			out = append(out, call)
+		}
+	})
+	return out
 }
